@@ -97,6 +97,7 @@ def _run_case(case: dict[str, Any], position: int, override: Optional[tuple[int,
     from kopf._cogs.structs import bodies, patches, credentials
     from kopf._cogs.structs import references
     sim = core.Sim(seed=1)
+    runner._setup_logging()
     core.begin_run(sim)
     core.install_seams()
     cluster = cl.FakeCluster(sim)
